@@ -455,29 +455,7 @@ func checkC08(c *Ctx) *core.Result {
 	// a Builder fed with token classes, or the constant "X".
 	evil := int64(classEvil)
 	// helpers that are called from the pass function only (directly or through each other)
-	passOnly := map[*ssa.Function]bool{pass: true}
-	for changed := true; changed; {
-		changed = false
-		for _, fn := range p.SourceFuncs(nil) {
-			if passOnly[fn] {
-				continue
-			}
-			n := p.Graph.Nodes[fn]
-			if n == nil || len(n.In) == 0 {
-				continue
-			}
-			all := true
-			for _, e := range n.In {
-				if !passOnly[e.Caller.Func] {
-					all = false
-				}
-			}
-			if all {
-				passOnly[fn] = true
-				changed = true
-			}
-		}
-	}
+	passOnly := calledOnlyFrom(p, pass)
 	for _, fn := range p.SourceFuncs(nil) {
 		for _, b := range fn.Blocks {
 			for _, ins := range b.Instrs {
@@ -640,4 +618,38 @@ func apiInputUnchangedRule(p *core.Program, r *core.Result, rule string, root *s
 	if n == 0 {
 		r.Fail("vacuity", core.QualName(root), rule+" text hand-over", p.Pos(root.Pos()), "the API function hands its argument to no module function (undecided)")
 	}
+}
+
+// calledOnlyFrom: the given functions plus every module function all of whose callers
+// are in that set (helpers that exist only to serve them).
+func calledOnlyFrom(p *core.Program, roots ...*ssa.Function) map[*ssa.Function]bool {
+	set := map[*ssa.Function]bool{}
+	for _, f := range roots {
+		if f != nil {
+			set[f] = true
+		}
+	}
+	for changed := true; changed; {
+		changed = false
+		for _, fn := range p.SourceFuncs(nil) {
+			if set[fn] {
+				continue
+			}
+			n := p.Graph.Nodes[fn]
+			if n == nil || len(n.In) == 0 {
+				continue
+			}
+			all := true
+			for _, e := range n.In {
+				if !set[e.Caller.Func] {
+					all = false
+				}
+			}
+			if all {
+				set[fn] = true
+				changed = true
+			}
+		}
+	}
+	return set
 }
